@@ -30,6 +30,7 @@ type World struct {
 	preludeObl map[string][]*Oblig
 	Specs      map[string]*Spec
 	gstates    map[string]*gstate
+	escapes    map[string]map[string]string
 }
 
 var repoRoot = envOr("GOVC_REPO", "/repo")
